@@ -619,5 +619,6 @@ fn pred_eval(p: Pred, k: u32, v: u32, old: &BTreeSet<u32>) -> bool {
             let m = (m as u32).max(1);
             k % m == (r as u32) % m
         }
+        Pred::KeyBelow(n) => k < n,
     }
 }
